@@ -15,6 +15,10 @@ import json
 import numpy as np
 
 ACTIVE = False
+EXPLICIT = False  # the converse for options with an explicit spelling that must behave like the default on this image (see EQUIVALENT)
+
+# engine="numpy" is documented as the pure-numpy implementation, which "auto" selects when numba is missing (it is, here)
+EQUIVALENT = {"Spline": dict(engine="numpy"), "VectorSpline2D": dict(engine="numpy"), "SplineCV": dict(engine="numpy")}
 
 DOCUMENTED = {
     "BlockReduce": dict(spacing=None, region=None, adjust="spacing", center_coordinates=False, shape=None, drop_coords=True),
@@ -81,13 +85,16 @@ def _same(value, default):
 class _Proxy:
     """Callable stand-in for a public verde function or class (attribute access is forwarded)."""
 
-    def __init__(self, target, table):
+    def __init__(self, target, table, equivalent=None):
         self.__dict__["_target"] = target
         self.__dict__["_table"] = table
+        self.__dict__["_equivalent"] = equivalent or {}
 
     def __call__(self, *args, **kwargs):
         if ACTIVE:
             kwargs = {k: v for k, v in kwargs.items() if not (k in self._table and _same(v, self._table[k]))}
+        if EXPLICIT and self._equivalent and len(args) == 0:
+            kwargs = {**self._equivalent, **kwargs}
         return self._target(*args, **kwargs)
 
     def __getattr__(self, name):
@@ -106,7 +113,7 @@ def install(verde):
         target = getattr(holder, parts[-1])
         if isinstance(target, _Proxy):
             continue
-        proxy = _Proxy(target, table)
+        proxy = _Proxy(target, table, EQUIVALENT.get(path))
         setattr(holder, parts[-1], proxy)
 
 
@@ -114,3 +121,9 @@ def flag_for(case):
     """Whether this case relies on verde's defaults: a pure function of the case (half of them do)."""
     h = hashlib.sha1(json.dumps(case, sort_keys=True, default=str).encode()).digest()
     return h[0] % 2 == 0
+
+
+def explicit_flag_for(case):
+    """Whether this case spells out the options of EQUIVALENT (a quarter of the cases, independent of flag_for)."""
+    h = hashlib.sha1(json.dumps(case, sort_keys=True, default=str).encode()).digest()
+    return h[2] % 4 == 0
